@@ -1,1 +1,169 @@
-crate::list![];
+//! C17 / C10 (string views): the byte- and line-indexed string views return
+//! exactly what their documentation says for EVERY string of at most N bytes
+//! and every index in {0..len+1} ∪ {usize::MAX}, and never panic.
+//! The reference results are computed by explicit byte loops in the harness.
+use crate::cover;
+use crate::nd::{any, assume, Bytes};
+use roto::RotoString;
+
+fn any_index(max: usize) -> usize {
+    let i: usize = any();
+    assume(i <= max || i == usize::MAX);
+    i
+}
+
+/// byte offset `i` is on a character boundary of `b` (UTF-8 continuation bytes are 10xxxxxx)
+fn boundary(b: &[u8], i: usize) -> bool {
+    i == b.len() || (i < b.len() && (b[i] & 0xC0) != 0x80)
+}
+
+macro_rules! bytes_view {
+    ($name:ident, $n:expr, $unwind:expr) => {
+        #[cfg_attr(kani, kani::proof)]
+        #[cfg_attr(kani, kani::unwind($unwind))]
+        pub fn $name() {
+            let b: Bytes<$n> = Bytes::any();
+            if let Some(s) = b.as_str() {
+                let by = b.bytes();
+                let v = RotoString::from(s).bytes();
+                assert!(v.len() == by.len(), "byte length");
+                let i = any_index($n + 1);
+                // get: the character starting at byte offset i; None if out of range or mid-character
+                let g = v.get(i);
+                if i < by.len() && boundary(by, i) {
+                    match g {
+                        Some(c) => {
+                            let w = c.len_utf8();
+                            assert!(i + w <= by.len());
+                            let mut buf = [0u8; 4];
+                            let enc = c.encode_utf8(&mut buf).as_bytes();
+                            let mut k = 0;
+                            while k < w {
+                                assert!(enc[k] == by[i + k], "get returned a different character");
+                                k += 1;
+                            }
+                            cover!(w > 1, "multi_byte_char");
+                        }
+                        None => assert!(false, "get on a character boundary must return the character"),
+                    }
+                } else {
+                    assert!(g.is_none(), "get out of range / inside a character must be None");
+                    cover!(i < by.len(), "mid_character");
+                }
+                // slice(i, j)
+                let j = any_index($n + 1);
+                let sl = v.slice(i, j);
+                let valid = i <= j && j <= by.len() && boundary(by, i) && boundary(by, j);
+                match sl {
+                    Some(t) => {
+                        assert!(valid, "slice returned Some for an invalid range");
+                        let tb = t.as_bytes();
+                        assert!(tb.len() == j - i, "slice length");
+                        let mut k = 0;
+                        while k < tb.len() {
+                            assert!(tb[k] == by[i + k], "slice content");
+                            k += 1;
+                        }
+                        cover!(j > i, "non_empty_slice");
+                    }
+                    None => assert!(!valid, "slice returned None for a valid range"),
+                }
+            }
+        }
+    };
+}
+bytes_view!(c17_bytes_view_2, 2, 5);
+bytes_view!(c17_bytes_view_3, 3, 6);
+
+/// reference: start offsets of the lines of `b` (a line ends at '\n' or at the
+/// end of the string; a trailing '\n' does not start a further line)
+fn line_starts(b: &[u8], starts: &mut [usize; 8]) -> usize {
+    let mut n = 0;
+    let mut at_start = true;
+    let mut i = 0;
+    while i < b.len() {
+        if at_start {
+            starts[n] = i;
+            n += 1;
+            at_start = false;
+        }
+        if b[i] == b'\n' {
+            at_start = true;
+        }
+        i += 1;
+    }
+    n
+}
+
+/// `StringLines::slice(i, j)`: lines i..j including their terminators;
+/// None if out of range or i > j. (ASCII inputs.)
+macro_rules! lines_slice {
+    ($name:ident, $n:expr, $unwind:expr) => {
+        #[cfg_attr(kani, kani::proof)]
+        #[cfg_attr(kani, kani::unwind($unwind))]
+        pub fn $name() {
+            let b: Bytes<$n> = Bytes::any_ascii();
+            let s = b.as_str().unwrap();
+            let by = b.bytes();
+            let mut starts = [0usize; 8];
+            let nl = line_starts(by, &mut starts);
+            let v = RotoString::from(s).lines();
+            let i = any_index($n + 1);
+            let j = any_index($n + 1);
+            let got = v.slice(i, j);
+            // documented: None if either index is out of bounds or i > j
+            // an empty string has one (empty) line for slicing purposes (see the crate's own unit test)
+            let count = if by.is_empty() || by[by.len() - 1] == b'\n' && false { nl.max(1) } else { nl };
+            let count = if by.is_empty() { 1 } else { count };
+            let valid = i <= j && j <= count;
+            match got {
+                Some(t) => {
+                    assert!(valid, "lines.slice returned Some for an invalid range");
+                    let from = if i < nl { starts[i] } else { by.len() };
+                    let to = if j < nl { starts[j] } else { by.len() };
+                    let tb = t.as_bytes();
+                    assert!(tb.len() == to - from, "lines.slice length");
+                    let mut k = 0;
+                    while k < tb.len() {
+                        assert!(tb[k] == by[from + k], "lines.slice content");
+                        k += 1;
+                    }
+                    cover!(j > i && to > from, "non_empty");
+                }
+                None => assert!(!valid, "lines.slice returned None for a valid range"),
+            }
+        }
+    };
+}
+lines_slice!(c17_lines_slice_2, 2, 6);
+lines_slice!(c17_lines_slice_3, 3, 7);
+
+/// `StringLines::get(n)` is documented as "Get the nth line in this string":
+/// it must exist exactly when n < number of lines. (ASCII inputs.)
+macro_rules! lines_get {
+    ($name:ident, $n:expr, $unwind:expr) => {
+        #[cfg_attr(kani, kani::proof)]
+        #[cfg_attr(kani, kani::unwind($unwind))]
+        pub fn $name() {
+            let b: Bytes<$n> = Bytes::any_ascii();
+            let s = b.as_str().unwrap();
+            let by = b.bytes();
+            let mut starts = [0usize; 8];
+            let nl = line_starts(by, &mut starts);
+            let v = RotoString::from(s).lines();
+            let i = any_index($n + 1);
+            let got = v.get(i);
+            assert!(got.is_some() == (i < nl), "lines.get(n) exists iff n < number of lines");
+            cover!(nl == 2, "two_lines");
+        }
+    };
+}
+lines_get!(c17_lines_get_2, 2, 6);
+
+crate::list![
+    c17_bytes_view_2,
+    c17_bytes_view_3,
+    c17_lines_slice_2,
+    c17_lines_slice_3,
+    c17_lines_get_2,
+];
